@@ -145,16 +145,36 @@ def block_text(did, d, pool, cfg, scheds, soak=None):
 
 # ------------------------------------------------------------------ running the harness, reading its output
 
+RSS_CAP = 12 << 30
+
+
 def run_harness(exe, text, tag, timeout=600):
     path = os.path.join(engine.workdir(), "c14_%s_%d.txt" % (tag, os.getpid()))
     with open(path, "w") as f:
         f.write(text)
     env = dict(os.environ); env.update(SAN_ENV)
     try:
-        r = subprocess.run([exe, path], capture_output=True, text=True, timeout=timeout, env=env)
-        rc, so, se = r.returncode, r.stdout, r.stderr
-    except subprocess.TimeoutExpired as e:
-        rc, so, se = -999, (e.stdout or b"").decode(errors="replace") if isinstance(e.stdout, bytes) else (e.stdout or ""), "TIMEOUT after %d s" % timeout
+        # a changed implementation may run away (an unsynchronised container filled by two threads grew to 50 GB in the TSan soak of
+        # seeded change C14-r5): the resident size is watched and the process killed at RSS_CAP; reported like a time-out
+        proc = subprocess.Popen([exe, path], stdout=subprocess.PIPE, stderr=subprocess.PIPE, text=True, env=env)
+        killed = []
+        def watch():
+            while proc.poll() is None:
+                try:
+                    with open("/proc/%d/statm" % proc.pid) as f: rss = int(f.read().split()[1]) * os.sysconf("SC_PAGE_SIZE")
+                    if rss > RSS_CAP:
+                        killed.append(rss); proc.kill(); return
+                except (OSError, ValueError, IndexError):
+                    return
+                time.sleep(0.5)
+        th = threading.Thread(target=watch, daemon=True); th.start()
+        try:
+            so, se = proc.communicate(timeout=timeout)
+            rc = proc.returncode
+            if killed: rc, se = -998, "MEMORY: resident size %d MB exceeded the cap of %d MB; killed\n%s" % (killed[0] >> 20, RSS_CAP >> 20, (se or "")[-2000:])
+        except subprocess.TimeoutExpired:
+            proc.kill(); so, se = proc.communicate()
+            rc, se = -999, "TIMEOUT after %d s" % timeout
     finally:
         try: os.remove(path)
         except OSError: pass
